@@ -90,6 +90,8 @@ pub assume_specification<T: Clone> [<[T]>::to_vec](s: &[T]) -> (r: Vec<T>)
 #[derive(Clone, Copy, PartialEq, Eq, Hash, Structural)]
 pub struct ExprId(pub u32);
 pub type Target = ExprId;
+impl ExprId { /// the zero constant is always the first expression in the graph
+    pub const ZERO: ExprId = ExprId(0); }
 
 pub struct ExprBuilderStub<F> { pub _p: core::marker::PhantomData<F> }
 pub struct SelectSourcesStub { pub _p: () }
